@@ -12,10 +12,12 @@ FUNCS_ENGINE = ['query::{Query::new, Query::run, ResultIterator::next}', 'solver
 ASSUME = ['whole programs are executed from MIR (library + generated template crate, both dumped by nightly rustc on every run) with value semantics for Rc/Box; std collections/iterators are models (HashMap/HashSet iterate in insertion order unless stated)',
           'reference semantics: first-order unification with occurs check, disequalities as disjunctions of pair inequalities, depth-first answer order; written independently in Python (mirsym/prog.py: Ref)',
           'answers are compared up to renaming of free variables; attached disequalities up to logical equivalence over all ground instances (z3 algebraic datatype)',
-          'integer parameters of every template range over the window |p| <= 3 (equality pattern between parameters is what matters); U = DefaultUser, E = StreamEngine']
+          'integer parameters of every template range over the window |p| <= 3 (quick) / 4 (thorough) (equality pattern between parameters is what matters); U = DefaultUser, E = StreamEngine']
 
 
-def run(prop, tier, templates, tag, explanation, window=3, extra_assume=()):
+def run(prop, tier, templates, tag, explanation, window=None, extra_assume=()):
+    if window is None:
+        window = 3 if tier == 'quick' else 4
     rep = Report(prop, tier, 'other', 'mirsym')
     rep.functions += FUNCS_ENGINE
     rep.assumptions += ASSUME + list(extra_assume)
